@@ -140,6 +140,24 @@ def periodic_geometry_contract(kind, box):
         for name, g, e in zip(("index_distance", "index_angle", "index_dihedral"), idx, exp):
             if abs(g - e) > 3e-3 and abs(abs(g - e) - 2 * np.pi) > 3e-3:
                 return f"{name}(periodic=True) of the wrapped chain = {g:.4f}, unwrapped chain has {e:.4f}"
+        # the box may also be given explicitly: for bare coordinates, for an array without a box and
+        # for an array whose own box differs (the given box is the one that counts)
+        other = (np.eye(3) * 97.0).astype(np.float32)
+        nobox = struc.AtomArray(4)
+        nobox.coord = w
+        otherbox = struc.AtomArray(4)
+        otherbox.coord = w
+        otherbox.box = other
+        for label, target in (("coordinates", w), ("array without box", nobox), ("array with another box", otherbox)):
+            idx = (float(struc.index_distance(target, np.array([[0, 1]]), periodic=True, box=b32)[0]),
+                   float(struc.index_angle(target, np.array([[0, 1, 2]]), periodic=True, box=b32)[0]),
+                   float(struc.index_dihedral(target, np.array([[0, 1, 2, 3]]), periodic=True, box=b32)[0]))
+            disp = struc.index_displacement(target, np.array([[0, 1]]), periodic=True, box=b32)[0]
+            if abs(float(np.linalg.norm(disp)) - exp[0]) > 3e-3:
+                return f"index_displacement({label}, box=...) has length {float(np.linalg.norm(disp)):.4f}, unwrapped chain has {exp[0]:.4f}"
+            for name, g, e in zip(("index_distance", "index_angle", "index_dihedral"), idx, exp):
+                if abs(g - e) > 3e-3 and abs(abs(g - e) - 2 * np.pi) > 3e-3:
+                    return f"{name}({label}, periodic=True, box=...) = {g:.4f}, unwrapped chain has {e:.4f}"
     return None
 
 
